@@ -10,6 +10,13 @@ D4 the specification a long-lived Pipeline hands to every run is read-only on th
    (interprocedural ownership analysis: every in-place store reachable from execute() hits a copy the
    run made, never an object the Pipeline owns) and is never rebound / mutated by the Pipeline after
    construction - otherwise run N's generated classes become run N+1's input (subclass chains).
+Round 6, two interface conditions between a per-run call site and a longer-lived object it feeds:
+D2 log handlers: the handler list of a `logging` logger is process-wide and append-only; a statement that adds a handler
+   is either bounded by a type-only existence test or is not requested (truthy argument reaching its enabling parameter,
+   followed through parameters / defaults / a once-per-process class latch) from a per-run / per-job / per-launch path,
+D3 unconsumed messages die with their pipeline: the transport an unconsumed publish lands on is followed back through
+   parameters and attributes; at every run boundary (constructor of the holder, a run entry point) the object handed
+   over is none, made for the call, or passed on once - never shared by all turns of a per-job loop.
 """
 from __future__ import annotations
 
@@ -869,6 +876,7 @@ def _per_run_reach(repo: Repo) -> Optional[Dict[int, Tuple[object, ast.AST, Tupl
     if "worker_loop" in names and "execute" in names:
         out = repo.call_graph_closure(roots, by_name_fallback=True, ignore_names=("get", "items", "values", "keys", "append", "add", "update", "pop", "format", "join"))
     repo.__dict__["_c18_per_run_reach"] = out
+    repo.__dict__["_c18_per_run_roots"] = roots
     return out
 
 
@@ -1118,6 +1126,541 @@ def _dedup_set_role(rel: str, cls_qn: str, attr: str, sites: List[Tuple[ast.AST,
     return whys.pop() if len(whys) == 1 else None
 
 
+# ---------------------------------------------------------------------------------------------- round 6
+# Two interface conditions between a per-run call site and a process-/worker-lifetime object it feeds:
+#  * the handler list of a `logging` logger (process-wide, found by role: whatever receives `addHandler`),
+#  * the transport on which the orchestrator's unconsumed node messages land.
+# Both are decided on the call graph, with arguments bound to parameters by name (positional, keyword, default).
+
+def _call_site_index(repo: Repo) -> Dict[int, List[Tuple[object, ast.AST, ast.Call]]]:
+    """id(function) -> [(module, calling function, call)] for every call in a function of the package that resolves to
+    it (constructor calls resolve to `__init__`).  A method call on a receiver the resolver cannot type
+    (`self.orchestrator.execute(..)`) is matched by name against the definitions whose signature accepts the
+    keywords used at the call."""
+    idx = repo.__dict__.get("_c18_call_sites")
+    if idx is None:
+        idx = {}
+        for m, _qn, f in repo.all_functions():
+            if m.rel.startswith("semantiva/examples/"):
+                continue
+            for c in calls_in(f):
+                try:
+                    targets = repo.resolve_call(m, c)
+                except Exception:
+                    targets = []
+                if not targets and isinstance(c.func, ast.Attribute) and not (isinstance(c.func.value, ast.Name) and c.func.value.id in m.imports):
+                    kws = {k.arg for k in c.keywords if k.arg}
+                    for tm, tf in repo.resolve_call_by_name(c):
+                        if not isinstance(tf, FuncNode) or not isinstance(parent(tf), ast.ClassDef):
+                            continue
+                        a = tf.args
+                        names = {p.arg for p in a.posonlyargs + a.args + a.kwonlyargs}
+                        if kws <= names or a.kwarg is not None:
+                            targets.append((tm, tf))
+                for _tm, tf in targets:
+                    idx.setdefault(id(tf), []).append((m, f, c))
+        repo.__dict__["_c18_call_sites"] = idx
+    return idx
+
+
+def _param_names(fn: ast.AST) -> List[str]:
+    a = fn.args
+    return [p.arg for p in a.posonlyargs + a.args + a.kwonlyargs]
+
+
+def _bound_arg(call: ast.Call, fn: ast.AST, pname: str) -> Tuple[str, Optional[ast.AST]]:
+    """What the parameter *pname* of *fn* receives at *call*: ("arg", expression), ("default", declared default or
+    None when there is none) or ("unknown", None) when star-arguments hide it."""
+    a = fn.args
+    pos = [p.arg for p in a.posonlyargs + a.args]
+    deco = {dotted_name(d) for d in fn.decorator_list}
+    if isinstance(parent(fn), ast.ClassDef) and "staticmethod" not in deco and pos and (fn.name == "__init__" or isinstance(call.func, ast.Attribute)):
+        pos = pos[1:]
+    for k in call.keywords:
+        if k.arg == pname:
+            return "arg", k.value
+    plain = [x for x in call.args]
+    if pname in pos:
+        i = pos.index(pname)
+        if i < len(plain) and not any(isinstance(x, ast.Starred) for x in plain[: i + 1]):
+            return "arg", plain[i]
+    if any(k.arg is None for k in call.keywords) or any(isinstance(x, ast.Starred) for x in plain):
+        return "unknown", None
+    all_pos = [p.arg for p in a.posonlyargs + a.args]
+    defaults: Dict[str, ast.AST] = dict(zip(all_pos[len(all_pos) - len(a.defaults):], a.defaults))
+    defaults.update({p.arg: d for p, d in zip(a.kwonlyargs, a.kw_defaults) if d is not None})
+    return "default", defaults.get(pname)
+
+
+def _service_loops(f: ast.AST) -> List[ast.AST]:
+    """The polling loops of a service function (worker / master): `while` loops that subscribe to a channel on each
+    turn.  What runs once per job is what such a loop contains; the code around it runs once per service."""
+    return [lp for lp in walk_no_nested(f) if isinstance(lp, ast.While) and any(isinstance(x, ast.Call) and call_attr(x) == "subscribe" for x in ast.walk(lp))]
+
+
+def _per_job_reach(repo: Repo) -> Optional[Tuple[Dict[int, Tuple[object, ast.AST, Tuple[str, ...]]], Dict[int, Tuple[object, ast.AST]]]]:
+    """Like `_per_run_reach`, with the service functions entered through their polling loop only: the set-up a worker
+    or master does once before it starts polling is not repeated per job."""
+    cached = repo.__dict__.get("_c18_per_job_reach", 0)
+    if cached != 0:
+        return cached
+    base = _per_run_reach(repo)
+    out = None
+    if base is not None:
+        ignore = ("get", "items", "values", "keys", "append", "add", "update", "pop", "format", "join")
+        roots: List[Tuple[object, ast.AST]] = []
+        services: List[Tuple[object, ast.AST]] = []
+        setup: List[Tuple[object, ast.AST]] = []  # functions that only lead to a polling loop (the loop moved into a helper)
+
+        def leads_to_service(m, f, depth: int, seen: Set[int]) -> bool:
+            if id(f) in seen or depth > 3:
+                return False
+            seen.add(id(f))
+            if _service_loops(f):
+                if not any(f is s for _m, s in services):
+                    services.append((m, f))
+                return True
+            hit = False
+            for c in calls_in(f):
+                try:
+                    targets = repo.resolve_call(m, c)
+                except Exception:
+                    targets = []
+                for tm, tf in targets:
+                    if isinstance(tf, FuncNode) and tf.name != "__init__" and leads_to_service(tm, tf, depth + 1, seen):
+                        hit = True
+            if hit:
+                setup.append((m, f))
+            return hit
+
+        for m, f in repo.__dict__.get("_c18_per_run_roots", []):
+            if not leads_to_service(m, f, 0, set()):
+                roots.append((m, f))
+        for m, f in services:
+            for lp in _service_loops(f):
+                for c in [x for x in ast.walk(lp) if isinstance(x, ast.Call)]:
+                    try:
+                        targets = repo.resolve_call(m, c)
+                    except Exception:
+                        targets = []
+                    if not targets and isinstance(c.func, ast.Attribute) and c.func.attr not in ignore:
+                        targets = repo.resolve_call_by_name(c)
+                    roots.extend((tm, tf) for tm, tf in targets if isinstance(tf, FuncNode) and not any(tf is s for _m, s in services))
+        closure = dict(repo.call_graph_closure(roots, by_name_fallback=True, ignore_names=ignore))
+        for m, f in services + setup:
+            closure.pop(id(f), None)
+        out = (closure, {id(f): (m, f) for m, f in services + setup})
+    repo.__dict__["_c18_per_job_reach"] = out
+    return out
+
+
+def _runs_per_job(repo: Repo, f: ast.AST, at: ast.AST) -> Tuple[bool, str]:
+    """(the node *at* of function *f* is evaluated once per run / job / launch, one call path as text)."""
+    both = _per_job_reach(repo)
+    if both is None:
+        return True, ""
+    reach, services = both
+    top = f
+    for a in ancestors(f):
+        if isinstance(a, FuncNode):
+            top = a
+    if id(top) in services:
+        inside = any(any(x is at for x in ast.walk(lp)) for lp in _service_loops(top))
+        return inside, (f"the polling loop of {qualname_of(top)}" if inside else "")
+    for cand in (f, top):
+        hit = reach.get(id(cand))
+        if hit is not None:
+            return True, " -> ".join(x.split(":", 1)[-1] for x in hit[2][-4:])
+    return False, ""
+
+
+def _const_truth(e: Optional[ast.AST]) -> Optional[bool]:
+    """Truth value of a literal (None for anything that is not a literal)."""
+    if e is None:
+        return False
+    if isinstance(e, ast.Constant):
+        return bool(e.value)
+    if isinstance(e, (ast.List, ast.Tuple, ast.Set)) and not e.elts or isinstance(e, ast.Dict) and not e.keys:
+        return False
+    return None
+
+
+def _existence_guard(fn: ast.AST, call: ast.Call) -> Tuple[Optional[bool], str]:
+    """How the `<logger>.addHandler(h)` call *call* of *fn* is protected against a second handler:
+    (True, text)  it runs only where `any(<test> for x in <logger>.handlers)` is false and <test> looks at the *type*
+                  of the installed handlers only - at most one handler per type, whatever happens at run time;
+    (False, text) it is guarded by an existence test that compares with run-time state (the current `sys.stdout`
+                  object, a path, a parameter): the same request adds another handler whenever that state differs;
+    (None, "")    no existence test at all."""
+    from ..cfg import CFG, edges_guaranteeing
+    from ..engine import assigned_value
+
+    recv = ast.unparse(call.func.value) if isinstance(call.func, ast.Attribute) else ""
+    g = CFG(fn, may_raise=lambda p: set())
+    ids = g.nodes_for(stmt_of(call))
+    if not ids:
+        return None, ""
+
+    def existence_test(e: ast.AST, depth: int = 0) -> Optional[ast.AST]:
+        """The `any(.. for x in <recv>.handlers)` (or non-emptiness of a list comprehension over it) that *e* denotes."""
+        if depth > 3:
+            return None
+        if isinstance(e, ast.Name):
+            vals = assigned_value(fn, e.id)
+            return existence_test(vals[0], depth + 1) if len(vals) == 1 else None
+        if isinstance(e, ast.Call) and call_attr(e) in ("any", "bool", "len") and len(e.args) == 1:
+            return existence_test(e.args[0], depth + 1)
+        if isinstance(e, (ast.GeneratorExp, ast.ListComp)) and len(e.generators) == 1:
+            it = e.generators[0].iter
+            while isinstance(it, ast.Call) and call_attr(it) in UNWRAP_CALLS and it.args:
+                it = it.args[0]
+            if isinstance(it, ast.Attribute) and ast.unparse(it.value) == recv:
+                return e
+        return None
+
+    found: List[ast.AST] = []
+
+    def atom(e: ast.AST) -> Optional[bool]:
+        t = existence_test(e)
+        if t is not None:
+            found.append(t)
+            return False  # the fact "no such handler yet" holds where the test is false
+        return None
+
+    guards: List[ast.AST] = []
+    for n in g.nodes:
+        if n.kind in ("if", "while") and n.part is not None:
+            del found[:]
+            for lab in edges_guaranteeing(n.part, atom):
+                if all(g.dominated_by_edge(t, n.id, lab) for t in ids):
+                    guards.extend(found)
+    if not guards:
+        return None, ""
+    for comp in guards:
+        gen = comp.generators[0]
+        var = gen.target.id if isinstance(gen.target, ast.Name) else None
+        tests = [comp.elt] + list(gen.ifs) if not (isinstance(comp.elt, ast.Name) and comp.elt.id == var) else list(gen.ifs)
+
+        def type_only(t: ast.AST) -> bool:
+            if isinstance(t, ast.BoolOp):
+                return all(type_only(v) for v in t.values)
+            if isinstance(t, ast.UnaryOp) and isinstance(t.op, ast.Not):
+                return type_only(t.operand)
+            if isinstance(t, ast.Call) and isinstance(t.func, ast.Name) and t.func.id == "isinstance" and len(t.args) == 2:
+                return isinstance(t.args[0], ast.Name) and t.args[0].id == var and all(dotted_name(x) for x in (t.args[1].elts if isinstance(t.args[1], ast.Tuple) else [t.args[1]]))
+            if isinstance(t, ast.Compare) and len(t.ops) == 1 and isinstance(t.ops[0], (ast.Is, ast.Eq)):
+                sides = [t.left, t.comparators[0]]
+                return any(isinstance(s, ast.Call) and isinstance(s.func, ast.Name) and s.func.id == "type" for s in sides) and all(
+                    dotted_name(s) or isinstance(s, ast.Call) and isinstance(s.func, ast.Name) and s.func.id == "type" for s in sides)
+            return False
+
+        if tests and all(type_only(t) for t in tests):
+            return True, norm(comp)[:80]
+    return False, norm(guards[0])[:90]
+
+
+def _enabling_param(fn: ast.AST, node: ast.AST) -> Optional[str]:
+    """The parameter of *fn* whose truth the evaluation of *node* is conditional on (`if enable: ..`), if any."""
+    from ..cfg import CFG, edges_guaranteeing
+
+    g = CFG(fn, may_raise=lambda p: set())
+    ids = g.nodes_for(stmt_of(node))
+    if not ids:
+        return None
+    for p in _param_names(fn):
+        def atom(e: ast.AST, p=p) -> Optional[bool]:
+            return True if isinstance(e, ast.Name) and e.id == p else None
+
+        stored = any(isinstance(x, ast.Name) and x.id == p and isinstance(x.ctx, ast.Store) for x in walk_no_nested(fn))
+        if stored:
+            continue
+        for n in g.nodes:
+            if n.kind in ("if", "while") and n.part is not None:
+                for lab in edges_guaranteeing(n.part, atom):
+                    if all(g.dominated_by_edge(t, n.id, lab) for t in ids):
+                        return p
+    return None
+
+
+def _under_process_latch(fn: ast.AST, st: ast.AST) -> bool:
+    """The statement *st* of *fn* runs at most once per process: it is reached only where a class-level flag is still
+    false (`not self._ready` / `not cls._ready`), and on every way out of the function from there the flag is set on
+    the *class* (`type(self)._ready = True`, `cls._ready = True`, `<Class>._ready = True`) - not on the instance,
+    which would latch per object."""
+    from ..cfg import CFG, edges_guaranteeing
+
+    cls = enclosing_class(fn)
+    g = CFG(fn, may_raise=lambda p: set())
+    ids = g.nodes_for(st)
+    if not ids:
+        return False
+    sets: Dict[str, List[int]] = {}
+    for n in g.nodes:
+        x = n.ast if n.kind == "stmt" else None
+        if isinstance(x, ast.Assign) and isinstance(x.value, ast.Constant) and x.value.value is True:
+            for t in x.targets:
+                if isinstance(t, ast.Attribute):
+                    on_class = (isinstance(t.value, ast.Name) and (t.value.id == "cls" or cls is not None and t.value.id == cls.name)
+                                or isinstance(t.value, ast.Call) and isinstance(t.value.func, ast.Name) and t.value.func.id == "type"
+                                or isinstance(t.value, ast.Attribute) and t.value.attr == "__class__")
+                    if on_class:
+                        sets.setdefault(t.attr, []).append(n.id)
+    for flag, setters in sets.items():
+        def atom(e: ast.AST, flag=flag) -> Optional[bool]:
+            return False if isinstance(e, ast.Attribute) and e.attr == flag else None
+
+        for n in g.nodes:
+            if n.kind in ("if", "while") and n.part is not None:
+                for lab in edges_guaranteeing(n.part, atom):
+                    if all(g.dominated_by_edge(t, n.id, lab) for t in ids):
+                        after = g.reach(ids, blocked=set(setters))
+                        if g.ret_exit not in after:
+                            return True
+    return False
+
+
+def _request_outcomes(gfn: ast.AST, e: Optional[ast.AST], depth: int = 0) -> Set[object]:
+    """What the expression *e* of *gfn*, bound to a parameter that enables an installation, can amount to:
+    "always" (a truthy literal, or a value computed at run time), ("param", q) (the entry value of gfn's own parameter
+    q, handed on - decided at gfn's call sites); the empty set means it is never truthy (`None`, `False`).  Locals
+    are followed to their assignments; a truthy literal assigned under a once-per-process class latch does not count."""
+    if e is None or depth > 4:
+        return set() if e is None else {"always"}
+    truth = _const_truth(e)
+    if truth is not None:
+        return {"always"} if truth else set()
+    if isinstance(e, ast.IfExp):
+        return _request_outcomes(gfn, e.body, depth + 1) | _request_outcomes(gfn, e.orelse, depth + 1)
+    if isinstance(e, ast.BoolOp):
+        out: Set[object] = set()
+        for v in e.values:
+            out |= _request_outcomes(gfn, v, depth + 1)
+        return out
+    if isinstance(e, ast.NamedExpr):
+        return _request_outcomes(gfn, e.value, depth + 1)
+    if isinstance(e, ast.Name):
+        out = set()
+        is_param = e.id in _param_names(gfn)
+        if is_param:
+            out.add(("param", e.id))
+        bound = False
+        for x in walk_no_nested(gfn):
+            if isinstance(x, ast.Name) and x.id == e.id and isinstance(x.ctx, ast.Store):
+                st = stmt_of(x)
+                plain = isinstance(st, (ast.Assign, ast.AnnAssign)) and getattr(st, "value", None) is not None and any(t is x for t in (st.targets if isinstance(st, ast.Assign) else [st.target]))
+                if not plain:
+                    out.add("always")  # unpacked / loop target / with-target: a run-time value
+                    bound = True
+                    continue
+                bound = True
+                if isinstance(st.value, ast.Name) and st.value.id == e.id:
+                    continue
+                t = _const_truth(st.value)
+                if t is False or t is True and _under_process_latch(gfn, st):
+                    continue
+                out |= _request_outcomes(gfn, st.value, depth + 1)
+        if not is_param and not bound:
+            out.add("always")  # a module-level / closure value
+        return out
+    return {"always"}
+
+
+def _handler_installs(repo: Repo, R: Report, r_log) -> None:
+    """C18-D2-log-handlers-installed-once (see the rule text)."""
+    idx = _call_site_index(repo)
+    # (a) the installing statements
+    installers: Dict[int, Tuple[object, ast.AST, Optional[str], ast.Call, str]] = {}  # id(fn) -> (mod, fn, enabling parameter, addHandler call, guard text)
+    todo: List[int] = []
+    n_sites = 0
+    for mod, qn, f in repo.all_functions():
+        if mod.rel.startswith("semantiva/examples/"):
+            continue
+        for c in calls_in(f):
+            if not (isinstance(c.func, ast.Attribute) and (c.func.attr == "addHandler" or c.func.attr in ("append", "insert", "extend") and (dotted_name(c.func.value) or "").endswith(".handlers"))):
+                continue
+            n_sites += 1
+            repo.consulted.add(mod.rel)
+            bounded, text = _existence_guard(f, c)
+            if bounded:
+                R.ok(r_log, mod.rel, qn, norm(c)[:70], f"runs only where no handler of that type is installed yet (`{text}`): at most one per logger, whatever the run-time state", c.lineno)
+                continue
+            if id(f) not in installers:
+                installers[id(f)] = (mod, f, _enabling_param(f, c), c, text)
+                todo.append(id(f))
+    R.extra["log_handler_install_sites"] = n_sites
+    # (b) who asks for an installation: arguments bound to the enabling parameter, parameters passed through
+    requests: List[Tuple[object, ast.AST, ast.Call, int]] = []
+    origin: Dict[int, int] = {i: i for i in installers}  # installer -> the function with the addHandler it leads to
+    while todo:
+        fid = todo.pop()
+        _tm, tfn, pname, _c, _t = installers[fid]
+        for m, gfn, call in idx.get(fid, []):
+            if gfn is tfn:
+                continue
+            if pname is None:
+                requests.append((m, gfn, call, fid))
+                continue
+            how, arg = _bound_arg(call, tfn, pname)
+            if how == "unknown":
+                continue
+            if how == "default" and arg is None:
+                continue  # no argument and no default value: nothing asks
+            outcomes = _request_outcomes(gfn, arg)
+            if "always" in outcomes:
+                requests.append((m, gfn, call, fid))
+            for q in sorted(o[1] for o in outcomes if isinstance(o, tuple)):
+                # the caller's own parameter, handed on: decided where *it* is bound
+                if id(gfn) not in installers:
+                    installers[id(gfn)] = (m, gfn, q, call, "")
+                    origin[id(gfn)] = origin[fid]
+                    todo.append(id(gfn))
+    # (c) no such request on a path that runs per run / job / launch
+    for m, gfn, call, fid in requests:
+        per_run, via = _runs_per_job(repo, gfn, call)
+        if not per_run:
+            continue
+        _om, ofn, _p, add_call, guard = installers[origin[fid]]
+        R.violation(r_log, m.rel, qualname_of(gfn), norm(call)[:90],
+                    f"this call asks for a log handler to be installed each time it runs, and it runs for every run / job / launch{' (' + via + ')' if via else ''}: it reaches "
+                    f"`{norm(add_call)[:50]}` in {qualname_of(ofn)}, which is "
+                    + (f"guarded only by `{guard}` - an existence test against run-time state (the stream object that is current at that moment), not against a configuration-determined key: "
+                       "whenever that state differs from the one an earlier launch saw (captured / redirected output, a new path) " if guard else "not guarded by any existence test: every time ")
+                    + "another handler is appended to the process-wide logger's handler list. Handlers are never removed: each keeps its stream alive and receives every later record, so live objects and "
+                    "the cost of each log call grow with the number of runs", call.lineno)
+    for fid in sorted(set(origin.values()), key=lambda i: (installers[i][0].rel, installers[i][1].lineno)):
+        om, ofn, _p, add_call, guard = installers[fid]
+        mine = [r for r in requests if origin[r[3]] == fid]
+        if not any(_runs_per_job(repo, r[1], r[2])[0] for r in mine):
+            R.ok(r_log, om.rel, qualname_of(ofn), norm(add_call)[:70],
+                 f"may add a handler per request ({'guard `' + guard + '` depends on run-time state' if guard else 'no existence guard'}); {len(mine)} requesting call site(s), none on a per-run path (explicit requests are made once per process / service)", add_call.lineno)
+    R.extra["log_handler_requests"] = len(requests)
+
+
+def _transport_lifetime(repo: Repo, R: Report, r_own, unconsumed: List[Tuple[object, ast.AST, ast.Call]]) -> None:
+    """C18-D3-unconsumed-messages-die-with-their-pipeline (see the rule text)."""
+    from ..engine import assigned_value
+
+    if not unconsumed:
+        R.ok(r_own, "semantiva", "<package>", "no transport.publish without a subscriber", "nothing is retained on a transport, whoever owns it")
+        return
+    idx = _call_site_index(repo)
+    # a hand-over is a lifetime question only at a *run boundary*: the constructor (or setter) of the object that keeps
+    # the transport for its runs, a function that is itself one run (execute / process), and whatever passes a
+    # transport on to those; inside one run (execute -> its helpers, node after node) every call shares the run's transport
+    _per_run_reach(repo)
+    run_entries = {id(f) for _m, f in repo.__dict__.get("_c18_per_run_roots", [])}
+    sinks: Dict[Tuple[int, str], Tuple[object, ast.AST, Tuple[str, ...], bool]] = {}   # (id(fn), parameter) -> (mod, fn, chain, at / above a run boundary)
+    attr_sinks: Dict[Tuple[int, str], Tuple[object, ast.ClassDef, Tuple[str, ...]]] = {}  # (id(class), attribute)
+    todo: List[Tuple[str, Tuple[int, str]]] = []
+
+    def feed(mod, fn: ast.AST, e: Optional[ast.AST], chain: Tuple[str, ...], boundary: bool, depth: int = 0) -> None:
+        """*e*, evaluated in *fn*, becomes the transport of an unconsumed publish: follow it to parameters / attributes."""
+        if e is None or depth > 4:
+            return
+        if isinstance(e, (ast.BoolOp,)):
+            for v in e.values:
+                feed(mod, fn, v, chain, boundary, depth + 1)
+        elif isinstance(e, ast.IfExp):
+            feed(mod, fn, e.body, chain, boundary, depth + 1)
+            feed(mod, fn, e.orelse, chain, boundary, depth + 1)
+        elif isinstance(e, ast.NamedExpr):
+            feed(mod, fn, e.value, chain, boundary, depth + 1)
+        elif isinstance(e, ast.Name):
+            if e.id in _param_names(fn) and (id(fn), e.id) not in sinks:
+                sinks[(id(fn), e.id)] = (mod, fn, chain, boundary or id(fn) in run_entries)
+                todo.append(("param", (id(fn), e.id)))
+            for v in assigned_value(fn, e.id):
+                if not (isinstance(v, ast.Name) and v.id == e.id):
+                    feed(mod, fn, v, chain, boundary, depth + 1)
+        elif isinstance(e, ast.Attribute) and isinstance(e.value, ast.Name) and e.value.id == "self":
+            cls = enclosing_class(fn)
+            if cls is not None and (id(cls), e.attr) not in attr_sinks:
+                attr_sinks[(id(cls), e.attr)] = (mod, cls, chain)
+                todo.append(("attr", (id(cls), e.attr)))
+
+    for mod, f, c in unconsumed:
+        if isinstance(c.func, ast.Attribute):
+            feed(mod, f, c.func.value, (f"{qualname_of(f)}: `{norm(c)[:50]}`",), False)
+    checked: List[Tuple[object, ast.AST, ast.Call, ast.AST, str, Optional[ast.AST], Tuple[str, ...]]] = []
+    while todo:
+        kind, key = todo.pop()
+        if kind == "attr":
+            mod, cls, chain = attr_sinks[key]
+            family = [(mod, cls)] + list(repo.subclasses(cls))
+            for cm, cc in family:
+                for meth in [n for n in cc.body if isinstance(n, FuncNode)]:
+                    for x in walk_no_nested(meth):
+                        if isinstance(x, (ast.Assign, ast.AnnAssign)) and getattr(x, "value", None) is not None:
+                            tg = x.targets if isinstance(x, ast.Assign) else [x.target]
+                            if any(isinstance(t, ast.Attribute) and isinstance(t.value, ast.Name) and t.value.id == "self" and t.attr == key[1] for t in tg):
+                                feed(cm, meth, x.value, chain + (f"{qualname_of(meth)}: `{norm(x)[:50]}`",), True)
+            continue
+        mod, fn, chain, boundary = sinks[key]
+        for m, gfn, call in idx.get(key[0], []):
+            how, arg = _bound_arg(call, fn, key[1])
+            if how == "unknown":
+                continue
+            if boundary:
+                checked.append((m, gfn, call, fn, key[1], arg if how == "arg" else None, chain))
+            if how == "arg":
+                feed(m, gfn, arg, chain + (f"{qualname_of(gfn)}: `{norm(call)[:50]}`",), boundary)
+    # every hand-over of a transport into that flow: the object must not outlive what it is handed to
+    seen_calls: Set[int] = set()
+    for m, gfn, call, fn, pname, arg, chain in checked:
+        if id(call) in seen_calls:
+            continue
+        seen_calls.add(id(call))
+        repo.consulted.add(m.rel)
+        what = f"`{pname}` of {qualname_of(fn)} at `{norm(call)[:60]}`"
+        if arg is None or isinstance(arg, ast.Constant) and arg.value is None:
+            R.ok(r_own, m.rel, qualname_of(gfn), what, "no transport handed over: the callee creates its own, which dies with it", call.lineno)
+            continue
+        why = _outlives_the_call(repo, gfn, call, arg, holder=fn.name == "__init__")
+        if why is None:
+            R.ok(r_own, m.rel, qualname_of(gfn), what, "the transport handed over is as short-lived as the call (created for it, or the caller's own parameter / attribute passed on once)", call.lineno)
+            continue
+        R.violation(r_own, m.rel, qualname_of(gfn), norm(call)[:90],
+                    f"{why}, and it becomes the transport on which node outputs are published without a subscriber ({' <- '.join(chain[:4])}): nothing in the package consumes those "
+                    "channels, so the one Message per node per run - with the run's data, its context and their loggers - no longer dies with the per-run / per-job Pipeline but stays queued on "
+                    "the longer-lived transport: its population of live objects grows with the number of runs / jobs, and every subscription scan walks the ever longer channel map", call.lineno)
+
+
+def _outlives_the_call(repo: Repo, gfn: ast.AST, call: ast.Call, arg: ast.AST, holder: bool) -> Optional[str]:
+    """Why the object *arg* evaluates to outlives the repeated evaluation of *call* in *gfn* (None: it does not):
+    it is bound outside a loop that repeats the call (the caller's parameter, a local set up before the loop), or -
+    when the callee is a constructor that keeps it (*holder*) on a per-run path - an attribute of the long-lived
+    caller / a module-level object."""
+    from ..cfg import CFG, reaching_defs
+
+    loops = _loop_ancestors(gfn, call)
+    if isinstance(arg, (ast.BoolOp, ast.IfExp)):
+        parts = arg.values if isinstance(arg, ast.BoolOp) else [arg.body, arg.orelse]
+        for v in parts:
+            why = _outlives_the_call(repo, gfn, call, v, holder)
+            if why:
+                return why
+        return None
+    if isinstance(arg, ast.Name):
+        if loops:
+            g = CFG(gfn, may_raise=lambda p: set())
+            use = g.nodes_for(stmt_of(call))
+            defs = [d for u in use for d in reaching_defs(g, arg.id, u)]
+            outer = loops[-1]
+            inside = {id(x) for x in ast.walk(outer)}
+            is_param = arg.id in _param_names(gfn)
+            outside = [d for d in defs if id(d.ast) not in inside]
+            if outside or (is_param and not defs) or (is_param and use and any(u in g.reach([g.entry], blocked={d.id for d in defs}) for u in use)):
+                src = f"the parameter `{arg.id}` of {qualname_of(gfn)}" if is_param and not outside else f"`{arg.id}`, bound before the loop (`{norm(outside[0].ast)[:40]}`)"
+                return f"{src} is one object for all turns of the loop `{norm(outer)[:40].split(':')[0]}:` that repeats this call once per run / job"
+        return None
+    if isinstance(arg, ast.Attribute) and holder:
+        d = dotted_name(arg) or ""
+        per_run, via = _runs_per_job(repo, gfn, call)
+        if d.startswith("self.") and (per_run or loops):
+            return f"`{d}` belongs to the long-lived object whose method {qualname_of(gfn)} runs per run / job{' (' + via + ')' if via else ''}"
+    return None
+
+
 def run(repo: Repo, R: Report) -> None:
     R.assume(
         "garbage collection reclaims unreferenced classes and objects (cycles included)",
@@ -1312,6 +1855,12 @@ def run(repo: Repo, R: Report) -> None:
                             "a mutable default argument is one object for the life of the process: growing it is a process-global memo / accumulator that keeps every key and value it was given (per-run classes, evaluators, payloads) alive", grow.lineno)
     R.ok(r_glob, "semantiva", "<package>", f"stdlib registrars / unbounded caches / mutable-default memos / collector switches / per-run warning texts fed at run time: {n_reg}", "none")
     R.extra["warning_call_sites"] = n_warn
+    # the handler list of a logging logger is a process-wide list as well
+    r_log = R.rule("C18-D2-log-handlers-installed-once", "the handler list of a `logging` logger is process-wide and nothing ever removes from it: every statement that adds a handler either runs only where no handler "
+                   "of that *type* is installed yet, or is not asked to run by any call on a per-run / per-job / per-launch path (an explicit request - a truthy argument reaching the parameter that "
+                   "enables the installation - is made once per process or per service; a class-level once-per-process latch counts, an existence test against run-time state such as the current "
+                   "`sys.stdout` object does not)", 2)
+    _handler_installs(repo, R, r_log)
 
     # ------------------------------------------------------------------ D3
     r_obj = R.rule("C18-D3-long-lived-objects", "orchestrators, Pipeline, transports, drivers, executors and emitters do not grow containers per run (beyond the frozen, bounded ones); every transport.publish has a subscriber that can consume it", 4)
@@ -1374,6 +1923,7 @@ def run(repo: Repo, R: Report) -> None:
     transport_publish = {id(fn) for m, fn in repo._build_func_index().get("publish", []) if m.rel.startswith("semantiva/execution/transport/")}
     if not transport_publish:
         raise AnalysisError("no transport publish() definition found")
+    unconsumed: List[Tuple[object, ast.AST, ast.Call]] = []
     for mod, qn, f in repo.all_functions():
         if mod.rel.startswith(("semantiva/examples/", "semantiva/execution/transport/")):
             continue
@@ -1385,6 +1935,8 @@ def run(repo: Repo, R: Report) -> None:
                 repo.consulted.add(mod.rel)
                 shown = c if consumed else _publish_in_normal_form(repo, mod.rel, qn, f, c)
                 R.check(consumed, r_obj, mod.rel, qn, norm(shown)[:90], "messages are published to a channel nothing in the package subscribes to: the in-memory transport retains one Message (data, context) per node per run on a reused Pipeline", c.lineno)
+                if not consumed:
+                    unconsumed.append((mod, f, c))
                 if not consumed:
                     # what such a retained message may reference: the run's data and context - never the node's processor,
                     # its class or a bound method of it (node / adapter / shorthand classes are generated per run, and
@@ -1425,6 +1977,14 @@ def run(repo: Repo, R: Report) -> None:
         by_tmpl.setdefault(tmpl, []).append(f"{rel}:{qn}")
     for tmpl, sites in sorted(by_tmpl.items()):
         R.check(bool(removal), r_obj, tr_rel, "InMemorySemantivaTransport.publish", f"channel entries for per-id channel `{tmpl}` are released", f"every new id creates a channel entry (deque + lock) in {sorted(maps)[0]} and no code path ever removes one (published from {sorted(set(sites))}): the master's transport grows by one entry per job for each such channel, and every subscription scan walks all of them", tr_pub.lineno)
+
+    # what nobody consumes is retained by the transport it was published on: that transport must not outlive the
+    # per-run / per-job Pipeline whose nodes published it (interface: whoever constructs / runs a pipeline per job)
+    r_own = R.rule("C18-D3-unconsumed-messages-die-with-their-pipeline", "node outputs are published on channels nothing subscribes to, so the transport they are published on retains them: that transport is "
+                   "followed back from the publish call through parameters and attributes to every place it is handed over, and at each hand-over the object is as short-lived as the call - none "
+                   "(the callee creates a private one), created for it, or passed on once - never one object shared by all turns of a per-job loop or an attribute of a long-lived caller given to a "
+                   "per-run constructed Pipeline", 2)
+    _transport_lifetime(repo, R, r_own, unconsumed)
 
     # ------------------------------------------------------------------ D4
     _run_input_read_only(repo, R)
